@@ -68,3 +68,148 @@ def match_true_set(fb, fn_key, scrut_ty=None):
                     out |= pat_values(arm["p"])
                     n += 1
     return out, n
+
+
+_VARIANT_RX = re.compile(r"((?:noodles_\w+)(?:::[A-Za-z_0-9#]+)+)")
+
+
+def _int_lit(s):
+    s = s.strip()
+    m = re.fullmatch(r"-?\d+", s)
+    if m:
+        return int(s)
+    m = re.fullmatch(r'[A-Za-z_0-9:#]+=\{"v":(-?\d+)\}', s)
+    if m:
+        return int(m.group(1))
+    return None
+
+
+def _variant_of(fb, s):
+    """If the string is (a wrapper around) an enum variant path, return (enum key, variant name)."""
+    s = s.strip()
+    m = re.fullmatch(r"(?:core::result::Result::Ok|core::option::Option::Some)\((.*)\)", s)
+    if m:
+        s = m.group(1).strip()
+    m = re.fullmatch(r"([A-Za-z_0-9:#]+)(?:\(.*\)|\{.*\})?", s)
+    if not m:
+        return None
+    path = m.group(1)
+    if "::" not in path:
+        return None
+    enum, var = path.rsplit("::", 1)
+    adt = fb.adts.get(enum)
+    if adt is None or adt["kind"] != "Enum":
+        return None
+    if var not in [v["name"] for v in adt["variants"]]:
+        return None
+    return enum, var
+
+
+def int_tables(fb):
+    """Scans all match facts for enum->int encoders and int->enum decoders.
+    Returns (encoders, decoders): lists of dict(fn, enum, map, wildcard, file, line)."""
+    encs, decs = [], []
+    for fn, ms in fb.matches.items():
+        f = fb.fns.get(fn)
+        if f is None or f.crate in ("noodles_htsget", "noodles_refget"):
+            continue
+        if f.trait and any(t in f.trait for t in ("fmt::Debug", "fmt::Display", "clone::Clone", "cmp::PartialEq", "hash::Hash", "cmp::Ord", "cmp::PartialOrd", "error::Error")):
+            continue
+        for m in ms:
+            arms = m["arms"]
+            if len(arms) < 3:
+                continue
+            # encoder: patterns are variants of one enum, values are int literals
+            enc = {}
+            enum = None
+            ok = True
+            for a in arms:
+                if a["g"]:
+                    ok = False
+                    break
+                val = _int_lit(a["v"])
+                alts = a["p"].split(" | ")
+                vs = [_variant_of(fb, x) for x in alts]
+                if val is None or any(v is None for v in vs):
+                    ok = False
+                    break
+                for e, v in vs:
+                    if enum is None:
+                        enum = e
+                    if e != enum:
+                        ok = False
+                    enc[v] = val
+            if ok and enum and len(enc) >= 3:
+                encs.append({"fn": fn, "enum": enum, "map": enc, "file": m["file"], "line": m["line"]})
+                continue
+            # decoder: patterns are int literals, values are (wrapped) variants of one enum
+            dec = {}
+            enum = None
+            wildcard = None
+            nvar = 0
+            for a in arms:
+                vv = _variant_of(fb, a["v"])
+                ints = [_int_lit(x) for x in a["p"].split(" | ")]
+                if all(i is not None for i in ints) and vv is not None and not a["g"]:
+                    if enum is None:
+                        enum = vv[0]
+                    if vv[0] == enum:
+                        for i in ints:
+                            dec[i] = vv[1]
+                        nvar += 1
+                elif a["p"] == "_" or a["p"].startswith("$"):
+                    wildcard = a["v"]
+            if enum and nvar >= 3 and m["sty"].lstrip("&") in ("u8", "i8", "u16", "i16", "u32", "i32", "u64", "i64", "usize", "char"):
+                decs.append({"fn": fn, "enum": enum, "map": dec, "wildcard": wildcard, "file": m["file"], "line": m["line"]})
+    return encs, decs
+
+
+def table_agreement(ctx, rule, crates, min_pairs, exceptions=None):
+    """dec∘enc = id for every enum that has an int encoder in one of `crates`: the best-overlapping decoder of the same
+    enum anywhere in the workspace must map every encoded code back to its variant; encoder codes are pairwise
+    distinct; the encoder covers every variant of the enum."""
+    fb = ctx.fb
+    exceptions = exceptions or {}
+    encs, decs = int_tables(fb)
+    npairs = 0
+    for e in encs:
+        f = fb.fns[e["fn"]]
+        if f.crate not in crates:
+            continue
+        ctx.saw_fn(f)
+        loc = "%s:%d" % (e["file"], e["line"])
+        name = "%s [%s]" % (e["enum"].split("::")[-1], e["fn"])
+        codes = list(e["map"].values())
+        if len(set(codes)) != len(codes):
+            dup = sorted({c for c in codes if codes.count(c) > 1})
+            ctx.violation(rule, "%s/duplicate-code/%s" % (rule, e["fn"]), "encoder %s maps two variants to the same code %s" % (e["fn"], dup), loc)
+            continue
+        adt = fb.adts.get(e["enum"])
+        allv = [v["name"] for v in adt["variants"]] if adt else []
+        miss = [v for v in allv if v not in e["map"]]
+        if miss and e["fn"] not in exceptions:
+            ctx.violation(rule, "%s/variant-not-encoded/%s" % (rule, e["fn"]), "encoder %s has no code for variant(s) %s" % (e["fn"], miss), loc)
+            continue
+        cands = [d for d in decs if d["enum"] == e["enum"]]
+        if not cands:
+            ctx.ok(rule, name, "encoder only (no int decoder of this enum in the workspace)", loc)
+            continue
+        best = max(cands, key=lambda d: len(set(d["map"]) & set(codes)))
+        same = [d for d in cands if len(set(d["map"]) & set(codes)) == len(set(best["map"]) & set(codes))]
+        for d in same:
+            npairs += 1
+            ctx.saw_fn(fb.fns[d["fn"]])
+            bad = [(v, c, d["map"].get(c)) for v, c in e["map"].items() if d["map"].get(c) != v]
+            if bad:
+                v, c, got = bad[0]
+                ctx.violation(rule, "%s/enc-dec-mismatch/%s/%s" % (rule, e["fn"], d["fn"]),
+                              "%s::%s is encoded as %s by %s but %s decodes %s as %s" % (
+                                  e["enum"].split("::")[-1], v, c, e["fn"], d["fn"], c, got), loc)
+            else:
+                w = d.get("wildcard") or ""
+                if w and not ("Err" in w or "None" in w or "…" in w or "return" in w or "$" in w):
+                    ctx.violation(rule, "%s/decoder-wildcard/%s" % (rule, d["fn"]), "decoder %s maps unknown codes to a value (%s) instead of an error" % (d["fn"], w[:60]))
+                else:
+                    ctx.ok(rule, "%s <-> %s" % (name, d["fn"]), "dec∘enc = id on all %d variants (exhaustive)" % len(e["map"]), loc)
+    ctx.floor(rule, "encoder/decoder table pairs", npairs, min_pairs)
+    return npairs
